@@ -1,4 +1,5 @@
 import CnlProofs.Scaled
+import CnlProofs.ScaledReps
 /-!
 # C01 — `scaled_integer` `+`, `-`, `*` and unary `-` are exact on `rep · radix^exponent`
 
@@ -33,6 +34,25 @@ built-in operator on the two (promoted) representation types.
   compiles) is exactly "the model does not report an ill-formed program".
 
 `PowOk` is trivially true for equal exponents (`k = 0`).
+
+## Wrapped representations (table `C01w`, model `CnlModel/ScaledReps.lean`) — last section
+
+* `ov_neg_exact`, `ov_mul_exact`, `ov_add_sub_exact` — `scaled_integer<overflow_integer<T, tag>, power<e, ρ>>` under every
+  *reacting* tag (saturated, throwing, trapping, undefined), every width and signedness mix: unary minus (judged in
+  the promoted type: `-x` of an unsigned 8/16-bit representation is an exact negative `int`), `*`, and `+ -` on equal
+  exponents return exactly the negation / product / sum / difference **as a value — no saturation, throw or trap** —
+  whenever it fits the result type; `ov_neg_reaction`, `ov_mul_reaction`, `ov_add_sub_reaction`: for *all* in-range
+  operands the outcome is the one the tag prescribes for the exact result alone (`Spec.checkedWant`, C06's specification).
+  `+ -` on *different* exponents under a reacting tag (the alignment is a tagged multiplication by a tagged power,
+  `ScaledReps.scaleOv`) and the native tag over `overflow_integer` are covered by the correspondence table only.
+* `safe_bin_is_elastic`, `safe_neg_is_elastic` — over `overflow_integer<elastic_integer<D, N>, tag>` the model is the
+  elastic_scaled_integer model whatever the tag (no test of the overflow layer can fire — a claim checked against
+  the code by the correspondence table); exactness for all digits / exponents / signedness mixes is then
+  `C05.scaled_binOp_exact`, `C05.scaled_neg_exact`.
+* `builtin_operand_right/left` — a built-in integer combined with an elastic representation (`*`, and `+ -` at
+  exponent 0) is the elastic number `elastic_integer<digits T, set_width_t<T, width N>>` of exponent 0 — `T`'s own
+  signedness, so a negative `int` against an unsigned narrowest type keeps its value; exactness again by C05.  With a
+  non-zero exponent the built-in operand is first scaled in its own promoted type: by correspondence only.
 -/
 namespace Cnl.C01
 open Cnl Cnl.Spec Cnl.Layered Cnl.ScaledP
@@ -264,5 +284,97 @@ example : Layered.un .neg (sc i8 5 2 (-128)) = .ok (sc i32 5 2 128) := by decide
 example : Layered.bin .add (sc i16 (-2) 2 3) (.int i32, 5) = .ok (sc i32 (-2) 2 23) := by decide
 -- ill-formed instantiation: `power_value<int, 31, 2>`
 example : ¬ PowOk i32 31 2 := by decide
+
+/-! ## wrapped representations (`CnlModel/ScaledReps.lean`, table `C01w`) -/
+
+open Cnl.ScaledReps Cnl.ScaledRepsP Cnl.Overflow in
+/-- unary minus over `overflow_integer<L, tag>`, every reacting tag, all in-range operands: the outcome the tag
+prescribes for the exact `-l` in the promoted type, at the same exponent -/
+theorem ov_neg_reaction (tag : OvTag) (ht : tag ≠ .nat) (L : IntTy) (hL : 1 ≤ L.bits) (e : Int) (ρ : Nat) (l : Int)
+    (hl : L.InRange l) :
+    negO (scOv L tag e ρ l) = wrapOv tag e ρ (checkedWant tag (promote L) (-l)) := by
+  rw [negO_checked tag ht, checkedNeg_eq ht hL hl]
+
+open Cnl.ScaledReps Cnl.ScaledRepsP Cnl.Overflow in
+/-- … in particular a value, exactly `-l`, whenever that fits the promoted type: `-x` of an unsigned 8/16-bit
+representation never signals -/
+theorem ov_neg_exact (tag : OvTag) (ht : tag ≠ .nat) (L : IntTy) (hL : 1 ≤ L.bits) (e : Int) (ρ : Nat) (l : Int)
+    (hl : L.InRange l) (hres : (promote L).InRange (-l)) :
+    negO (scOv L tag e ρ l) = .ok (scOv (promote L) tag e ρ (-l)) := by
+  rw [ov_neg_reaction tag ht L hL e ρ l hl, want_in hres]; rfl
+
+open Cnl.ScaledReps Cnl.ScaledRepsP Cnl.Overflow in
+theorem ov_mul_reaction (tag : OvTag) (ht : tag ≠ .nat) (L R : IntTy) (hL : 1 ≤ L.bits) (hR : 1 ≤ R.bits)
+    (eL eR : Int) (ρ : Nat) (l r : Int) (hl : L.InRange l) (hr : R.InRange r) :
+    binO .mul (scOv L tag eL ρ l) (scOv R tag eR ρ r)
+      = wrapOv tag (eL + eR) ρ (checkedWant tag (usualArith L R) (l * r)) := by
+  rw [binO_mul_checked tag ht, builtin_mul_eq ht hL hR hl hr]
+
+open Cnl.ScaledReps Cnl.ScaledRepsP Cnl.Overflow in
+/-- `*` over overflow_integer representations: exact, exponents add, no signal whenever the product fits -/
+theorem ov_mul_exact (tag : OvTag) (ht : tag ≠ .nat) (L R : IntTy) (hL : 1 ≤ L.bits) (hR : 1 ≤ R.bits)
+    (eL eR : Int) (ρ : Nat) (l r : Int) (hl : L.InRange l) (hr : R.InRange r)
+    (hres : (usualArith L R).InRange (l * r)) :
+    binO .mul (scOv L tag eL ρ l) (scOv R tag eR ρ r) = .ok (scOv (usualArith L R) tag (eL + eR) ρ (l * r)) := by
+  rw [ov_mul_reaction tag ht L R hL hR eL eR ρ l r hl hr, want_in hres]; rfl
+
+open Cnl.ScaledReps Cnl.ScaledRepsP Cnl.Overflow in
+theorem ov_add_sub_reaction (op : AOp) (hop : op = .add ∨ op = .sub) (tag : OvTag) (ht : tag ≠ .nat) (L R : IntTy)
+    (hL : 1 ≤ L.bits) (hR : 1 ≤ R.bits) (e : Int) (ρ : Nat) (l r : Int) (hl : L.InRange l) (hr : R.InRange r) :
+    binO (AOp.toBin op) (scOv L tag e ρ l) (scOv R tag e ρ r)
+      = wrapOv tag e ρ (checkedWant tag (usualArith L R) (exact op l r)) := by
+  rcases hop with h | h <;> subst h
+  · rw [show AOp.toBin .add = BinOp.add from rfl, binO_addsub_checked .add (Or.inl rfl) tag ht,
+      builtin_add_eq ht hL hR hl hr]; rfl
+  · rw [show AOp.toBin .sub = BinOp.sub from rfl, binO_addsub_checked .sub (Or.inr rfl) tag ht,
+      builtin_sub_eq ht hL hR hl hr]; rfl
+
+open Cnl.ScaledReps Cnl.ScaledRepsP Cnl.Overflow in
+/-- `+ -` on equal exponents over overflow_integer representations: exact, no signal whenever the result fits -/
+theorem ov_add_sub_exact (op : AOp) (hop : op = .add ∨ op = .sub) (tag : OvTag) (ht : tag ≠ .nat) (L R : IntTy)
+    (hL : 1 ≤ L.bits) (hR : 1 ≤ R.bits) (e : Int) (ρ : Nat) (l r : Int) (hl : L.InRange l) (hr : R.InRange r)
+    (hres : (usualArith L R).InRange (exact op l r)) :
+    binO (AOp.toBin op) (scOv L tag e ρ l) (scOv R tag e ρ r) = .ok (scOv (usualArith L R) tag e ρ (exact op l r)) := by
+  rw [ov_add_sub_reaction op hop tag ht L R hL hR e ρ l r hl hr, want_in hres]; rfl
+
+/-- over `overflow_integer<elastic_integer<D, N>, tag>` `+ - *` are the elastic_scaled_integer operators, whatever the tag -/
+theorem safe_bin_is_elastic (tag : OvTag) (op : BinOp) (hop : op = .add ∨ op = .sub ∨ op = .mul)
+    (x y : ElasticScaled.ESNum) : ScaledReps.binOE tag op x y = ElasticScaled.binOp op x y := by
+  rcases hop with h | h | h <;> subst h <;> rfl
+
+theorem safe_neg_is_elastic (tag : OvTag) (x : ElasticScaled.ESNum) : ScaledReps.negOE tag x = ElasticScaled.neg x := rfl
+
+/-- a built-in integer on the right of an elastic representation (`*`; `+ -` at exponent 0) -/
+theorem builtin_operand_right (op : BinOp) (x : ElasticScaled.ESNum) (B : IntTy) (b : Int)
+    (h : op = .mul ∨ ((op = .add ∨ op = .sub) ∧ x.exp = 0)) :
+    ScaledReps.binOpB x.narrowest op (.es x) (.builtin B b)
+      = ElasticScaled.binOp op x (ScaledReps.ofBuiltin x.narrowest B b 0) :=
+  ScaledRepsP.binOpB_right_eq op x B b h
+
+theorem builtin_operand_left (op : BinOp) (x : ElasticScaled.ESNum) (B : IntTy) (b : Int)
+    (h : op = .mul ∨ ((op = .add ∨ op = .sub) ∧ x.exp = 0)) :
+    ScaledReps.binOpB x.narrowest op (.builtin B b) (.es x)
+      = ElasticScaled.binOp op (ScaledReps.ofBuiltin x.narrowest B b 0) x :=
+  ScaledRepsP.binOpB_left_eq op x B b h
+
+-- non-vacuity: -12.5 over overflow_integer<uint8_t, saturated>: rep 200 at exponent -4 gives the int -200
+example : ScaledReps.negO (ScaledReps.scOv u8 .sat (-4) 2 200) = .ok (ScaledReps.scOv i32 .sat (-4) 2 (-200)) := by decide
+example : u8.InRange 200 ∧ (promote u8).InRange (-200) := by decide
+example : ScaledReps.negO (ScaledReps.scOv u32 .thr 0 2 1) = .throws false := by decide
+example : ScaledReps.binO .mul (ScaledReps.scOv i16 .trp (-8) 2 (-300)) (ScaledReps.scOv u8 .trp 3 2 255)
+    = .ok (ScaledReps.scOv i32 .trp (-5) 2 (-76500)) := by decide +kernel
+example : ScaledReps.binO .sub (ScaledReps.scOv u32 .sat (-4) 2 5) (ScaledReps.scOv u32 .sat (-4) 2 600)
+    = .ok (ScaledReps.scOv u32 .sat (-4) 2 0) := by decide
+-- different exponents under a reacting tag (correspondence only): 3·2^-1 + 5·2^2 = 43·2^-1, radix 10: 7 − (−5)·10^-3
+example : ScaledReps.binO .add (ScaledReps.scOv u8 .sat (-1) 2 3) (ScaledReps.scOv i16 .sat 2 2 5)
+    = .ok (ScaledReps.scOv i32 .sat (-1) 2 43) := by decide +kernel
+example : ScaledReps.binO .sub (ScaledReps.scOv i32 .trp 0 10 7) (ScaledReps.scOv i8 .trp (-3) 10 (-5))
+    = .ok (ScaledReps.scOv i32 .trp (-3) 10 7005) := by decide +kernel
+-- safe unsigned fixed point: 0.3125 − 37.5 = −595·2^-4 in a signed 10-digit result
+example : ScaledReps.binOE .sat .sub ⟨10, u32, -4, 5⟩ ⟨10, u32, -4, 600⟩ = .ok ⟨10, i32, -4, -595⟩ := by decide
+-- elastic_integer<40, unsigned> at exponent -8 plus the int -3: 10^12 − 768, in a signed 41-digit result
+example : ScaledReps.binOpB u32 .add (.es ⟨40, u32, -8, 1000000000000⟩) (.builtin i32 (-3))
+    = .ok ⟨41, i32, -8, 999999999232⟩ := by decide
+example : ScaledReps.binOpB u8 .mul (.builtin i8 (-3)) (.es ⟨12, u8, 0, 4000⟩) = .ok ⟨19, i8, 0, -12000⟩ := by decide
 
 end Cnl.C01
